@@ -256,6 +256,7 @@ def _joins(model, rep):
        "Mesh.__add__", "the joined connectivity does not shift the second "
        "mesh by the number of points of the first", fn.lineno)
     # ---- extrusion: layers (symbolic run with three levels)
+    _extrusion_reads_cells(model, rep)
     _extrusion(model, rep)
     _join_coordinates(model, rep)
     _higher_order_surgery(model, rep)
@@ -467,6 +468,40 @@ def _higher_order_surgery(model, rep):
                      f"with too few points - MeshTri2().refined(1)"
                      f".restrict(...) has 6 points for 4 quadratic cells "
                      f"and every use raises IndexError", fn.lineno)
+
+
+def _extrusion_reads_cells(model, rep):
+    """The extrusion of a mesh along a segment mesh is the product of their
+    *cells*.  Both extrusion routines build one layer between every pair of
+    consecutive stored points of the segment mesh: that is the product of
+    the cells only if the segment mesh has no gap and no unused point.  A
+    routine that never reads the connectivity of the segment mesh cannot
+    know its cells (necessary condition, decided here; that the layers
+    derived from it are right is the subject of the layer run below)."""
+    R3 = "C18-R3"
+    for modn, clsn in (("skfem.mesh.mesh_tri_1", "MeshTri1"),
+                       ("skfem.mesh.mesh_line_1", "MeshLine1")):
+        fn = model.cls(modn, clsn).methods.get("__mul__")
+        if fn is None:
+            raise AnalysisError(f"{clsn}.__mul__ not found")
+        if not any(isinstance(x, ast.Attribute) and x.attr in ("p", "doflocs")
+                   and src(x.value) == "other" for x in ast.walk(fn.node)):
+            raise AnalysisError(f"{clsn}.__mul__: the points of the segment "
+                                f"mesh are not read")
+        reads = any(isinstance(x, ast.Attribute) and src(x.value) == "other"
+                    and x.attr not in ("p", "doflocs")
+                    and not (isinstance(x.ctx, ast.Load) and x.attr in (
+                        "__class__",))
+                    for x in ast.walk(fn.node))
+        _v(rep, R3, reads, f"{clsn}.__mul__:cells-of-the-segment-mesh",
+           "the layers are derived from the cells of the segment mesh",
+           f"{clsn}.__mul__",
+           f"{clsn}.__mul__ reads the points of the segment mesh (other.p) "
+           f"but never its connectivity: one layer is built between every "
+           f"two consecutive stored points - also across a gap "
+           f"(MeshLine(np.linspace(0, 3, 4)).remove_elements(np.array([1])): "
+           f"three layers, measure 3 instead of 2) and up to an unused "
+           f"trailing point", fn.lineno, fn.path)
 
 
 def _extrusion(model, rep):
